@@ -22,4 +22,37 @@ theorem knownFns_of_check {l : List (String × String)} (h : knownFnsCheck l = t
   simp only [hs] at this
   rcases hex with hex | hex <;> simpa [hex] using this
 
+/-! ### `_check_branch` as read from the source is `branchOk` -/
+
+theorem assignOnly_eq_plain : ∀ b : List PyStmt, assignOnly b = (!b.isEmpty && b.all isPlainAssign)
+  | [] => by simp [assignOnly]
+  | [s] => by cases s <;> simp [assignOnly, isPlainAssign]
+  | s :: s2 :: rest => by
+    have ih := assignOnly_eq_plain (s2 :: rest)
+    cases s <;> simp_all [assignOnly, isPlainAssign]
+
+theorem lastAssigned_plain : ∀ b : List PyStmt, b.all isPlainAssign = true →
+    lastAssigned b = match b.getLast? with
+      | some (.assign x _) => some x
+      | _ => none
+  | [], _ => by simp [lastAssigned]
+  | [s], h => by cases s <;> simp_all [lastAssigned, isPlainAssign]
+  | s :: s2 :: rest, h => by
+    have h2 : (s2 :: rest).all isPlainAssign = true := by simp_all
+    have ih := lastAssigned_plain (s2 :: rest) h2
+    have hlast : (s :: s2 :: rest).getLast? = (s2 :: rest).getLast? := by simp [List.getLast?_cons_cons]
+    rw [hlast, ← ih]
+    cases hr : lastAssigned (s2 :: rest) with
+    | some y => simp only [lastAssigned] at hr ⊢; rw [hr]
+    | none =>
+      exfalso
+      rw [ih] at hr
+      have hmem : ∀ t ∈ (s2 :: rest), isPlainAssign t = true := by simpa using h2
+      cases hg : (s2 :: rest).getLast? with
+      | none => simp at hg
+      | some t =>
+        have ht := hmem t (List.mem_of_getLast? hg)
+        rw [hg] at hr
+        cases t <;> simp_all [isPlainAssign]
+
 end Mxl.C06
